@@ -327,9 +327,37 @@ func rulesNewickWriter(c *Ctx, r *Report) {
 	}
 	r.analysed(fname(w))
 	s := newSymb(w)
+	// the children's part written by a method of the same node that the writer calls and that calls the writer
+	// back for each child: the two together are the writer
+	type wpart struct {
+		fn *ssa.Function
+		s  *symb
+	}
+	parts := []wpart{{w, s}}
+	if len(staticCallsTo(w, w)) == 0 && len(w.Params) > 0 {
+		instrs(w, func(in ssa.Instruction) {
+			cl, ok := in.(*ssa.Call)
+			if !ok || len(parts) > 1 {
+				return
+			}
+			h := cl.Call.StaticCallee()
+			if h == nil || h.Blocks == nil || h.Pkg != w.Pkg || h == n2t || h.Signature.Recv() == nil || len(cl.Call.Args) == 0 || cl.Call.Args[0] != ssa.Value(w.Params[0]) {
+				return
+			}
+			if len(staticCallsTo(h, w)) > 0 {
+				parts = append(parts, wpart{h, newSymb(h)})
+				r.analysed(fname(h))
+			}
+		})
+	}
+	eachPart := func(f func(fn *ssa.Function, s *symb, in ssa.Instruction)) {
+		for _, pt := range parts {
+			instrs(pt.fn, func(in ssa.Instruction) { f(pt.fn, pt.s, in) })
+		}
+	}
 	// whether a node has children is a matter of their number: an empty non-nil list is a leaf like a nil one
 	var nilTests []string
-	instrs(w, func(in ssa.Instruction) {
+	eachPart(func(w *ssa.Function, s *symb, in ssa.Instruction) {
 		bo, ok := in.(*ssa.BinOp)
 		if !ok || (bo.Op != token.EQL && bo.Op != token.NEQ) {
 			return
@@ -441,7 +469,7 @@ func rulesNewickWriter(c *Ctx, r *Report) {
 	// END: constants the writer emits
 	var consts []int64
 	var badWrites []string
-	instrs(w, func(in ssa.Instruction) {
+	eachPart(func(w *ssa.Function, s *symb, in ssa.Instruction) {
 		cl, ok := in.(*ssa.Call)
 		if !ok || cl.Call.StaticCallee() == nil {
 			return
@@ -466,7 +494,7 @@ func rulesNewickWriter(c *Ctx, r *Report) {
 	// where a ',' is written depends on the child's number only, never on what is in the buffer (an empty child
 	// writes nothing)
 	var bufDependent []string
-	instrs(w, func(in ssa.Instruction) {
+	eachPart(func(w *ssa.Function, s *symb, in ssa.Instruction) {
 		cl, ok := in.(*ssa.Call)
 		if !ok || cl.Call.StaticCallee() == nil || qname(cl.Call.StaticCallee()) != "(*bytes.Buffer).WriteByte" {
 			return
@@ -492,9 +520,42 @@ func rulesNewickWriter(c *Ctx, r *Report) {
 	r.check(okConsts && len(badWrites) == 0 && len(consts) >= 3, "END", fname(w), "structural bytes", c.pos(w.Pos()),
 		"outside names and distances the writer emits only "+strings.Join(cs, " ")+": condensed form, no whitespace", "the writer emits other bytes outside quoted names: "+strings.Join(append(cs, badWrites...), "; "))
 	// children in slice order with ',' between
-	rec := staticCallsTo(w, w)
+	cw, s := w, s // the part that holds the recursive calls
+	if len(parts) > 1 {
+		cw, s = parts[1].fn, parts[1].s
+	}
+	rec := staticCallsTo(cw, w)
 	okRec := false
+	// the first child on its own, then the rest in a loop over Children[1:], after a test that there is a first
+	if len(rec) == 2 {
+		first, rest := s.expr(rec[0].Call.Args[0]), s.expr(rec[1].Call.Args[0])
+		if first.Op != "load" || first.Args[0].Op != "index" || first.Args[0].Args[1].String() != "0" {
+			first, rest = rest, first
+			rec[0], rec[1] = rec[1], rec[0]
+		}
+		if first.Op == "load" && first.Args[0].Op == "index" && first.Args[0].Args[1].String() == "0" && recvFieldName(cw, first.Args[0].Args[0]) == "Children" &&
+			rest.Op == "load" && rest.Args[0].Op == "index" && rec[0].Block().Dominates(rec[1].Block()) && rec[0].Block() != rec[1].Block() {
+			sl, idx := rest.Args[0].Args[0], rest.Args[0].Args[1]
+			if slv, ok := sl.Val.(*ssa.Slice); ok && slv.High == nil && slv.Max == nil && slv.Low != nil && recvFieldName(cw, s.expr(slv.X)) == "Children" {
+				if k, ok := cInt(constVal(slv.Low)); ok && k == 1 {
+					var l *countedLoop
+					var why string
+					if b, ok := idx.Val.(*ssa.BinOp); ok {
+						if phi, ok := b.X.(*ssa.Phi); ok {
+							l, why = findCountedLoopAny(phi, b)
+						}
+					} else if phi, ok := idx.Val.(*ssa.Phi); ok {
+						l, why = findCountedLoop(phi)
+					}
+					if l != nil && why == "" && s.expr(l.bound).String() == "builtin:len("+sl.String()+")" && !naturalLoop(l.phi.Block())[rec[0].Block()] {
+						okRec = true
+					}
+				}
+			}
+		}
+	}
 	if len(rec) == 1 {
+		w := cw
 		arg := s.expr(rec[0].Call.Args[0])
 		// load(load(P0.f2)[idx])
 		if arg.Op == "load" && arg.Args[0].Op == "index" && recvFieldName(w, arg.Args[0].Args[0]) == "Children" {
